@@ -243,14 +243,24 @@ fn route_id(n: &packet::Nlri) -> u32 {
 }
 
 fn reach_msg(f: Family, x: u32, asn: u32, nollgr: bool) -> bgp::Message {
+    reach_msg_c(f, x, asn, nollgr, false)
+}
+
+/// `stalec`: the route carries the LLGR_STALE community as received (it is stale further upstream)
+fn reach_msg_c(f: Family, x: u32, asn: u32, nollgr: bool, stalec: bool) -> bgp::Message {
     let mut attrs = vec![
         packet::Attribute::new_with_value(packet::Attribute::ORIGIN, 0).unwrap(),
         packet::Attribute::empty_as_path().as_path_prepend(asn),
     ];
+    let mut comm = Vec::new();
     if nollgr {
-        attrs.push(
-            packet::Attribute::new_with_bin(packet::Attribute::COMMUNITY, vec![0xff, 0xff, 0x00, 0x07]).unwrap(),
-        );
+        comm.extend_from_slice(&[0xff, 0xff, 0x00, 0x07]);
+    }
+    if stalec {
+        comm.extend_from_slice(&[0xff, 0xff, 0x00, 0x06]);
+    }
+    if !comm.is_empty() {
+        attrs.push(packet::Attribute::new_with_bin(packet::Attribute::COMMUNITY, comm).unwrap());
     }
     let nexthop = if f == Family::IPV4 {
         bgp::Nexthop::V4(Ipv4Addr::new(127, 0, 0, 1))
@@ -456,8 +466,9 @@ impl GrWorld {
                 let f = fam_of(tok[1]);
                 let x: u32 = tok[2].parse().unwrap();
                 let n = tok[3] == "1";
+                let stalec = tok.get(4) == Some(&"1");
                 let r = self.remote.as_mut().unwrap();
-                r.send(&reach_msg(f, x, 65002, n)).await;
+                r.send(&reach_msg_c(f, x, 65002, n, stalec)).await;
                 let tables = self.tables.clone();
                 let addr = self.addr;
                 let ok = wait_until(
@@ -711,7 +722,8 @@ fn ex_prefix_name(n: &packet::Nlri) -> String {
 }
 
 fn ex_attrs(src: &str, cls: &str) -> Arc<Vec<packet::Attribute>> {
-    let c: u32 = (65000u32 << 16) | if cls == "x" { 1 } else { 2 };
+    // class "f": what the import policy of the export world rejects (community 65000:9)
+    let c: u32 = (65000u32 << 16) | if cls == "x" { 1 } else if cls == "f" { 9 } else { 2 };
     Arc::new(vec![
         packet::Attribute::new_with_value(packet::Attribute::ORIGIN, 0).unwrap(),
         packet::Attribute::empty_as_path().as_path_prepend(ex_src_asn(src)),
@@ -799,6 +811,17 @@ impl ExWorld {
             let (_, a) = pt.add_assignment("global", table::PolicyDirection::Export, table::Disposition::Accept, vec!["p".into()]).map_err(|_| ()).unwrap();
             a
         };
+        {
+            // the import policy rejects class "f" (the `filter` operation announces a route in that form)
+            let mut pt = table::PolicyTable::new();
+            pt.add_defined_set(table::DefinedSetConfig::Community { name: "rej".into(), patterns: vec!["65000:9".into()] }).map_err(|_| ()).unwrap();
+            pt.add_statement("s", vec![table::ConditionConfig::CommunitySet("rej".into(), table::MatchOption::Any)], Some(table::Disposition::Reject), table::Actions::default())
+                .map_err(|_| ())
+                .unwrap();
+            pt.add_policy("p", vec!["s".into()]).map_err(|_| ()).unwrap();
+            let (_, a) = pt.add_assignment("global", table::PolicyDirection::Import, table::Disposition::Accept, vec!["p".into()]).map_err(|_| ()).unwrap();
+            tables.import_policy.store(Some(a));
+        }
         if reject != "-" {
             // the neighbour's own export policy rejects class `reject`; the global one (which the neighbour's overrides)
             // rejects the OTHER class, so that using the wrong one anywhere shows
@@ -873,7 +896,8 @@ impl ExWorld {
     async fn apply(&mut self, tok: &[&str]) -> String {
         let mut note = String::new();
         match tok[0] {
-            "announce" => {
+            "announce" | "filter" => {
+                let cls = if tok[0] == "filter" { "f" } else { tok[3] };
                 let src = self.sources[tok[1]].clone();
                 let nh = bgp::Nexthop::V4(match tok[1] {
                     "s1" => Ipv4Addr::new(192, 0, 2, 1),
@@ -886,8 +910,8 @@ impl ExWorld {
                     packet::PathNlri { path_id: 0, nlri: ex_prefix(tok[2]) },
                     Some(nh),
                     self.attrs
-                        .entry((tok[1].to_string(), tok[3].to_string()))
-                        .or_insert_with(|| ex_attrs(tok[1], tok[3]))
+                        .entry((tok[1].to_string(), cls.to_string()))
+                        .or_insert_with(|| ex_attrs(tok[1], cls))
                         .clone(),
                     None,
                     0,
@@ -2947,5 +2971,139 @@ async fn holddriver_replay() {
         if terminated {
             ended = true;
         }
+    }
+}
+
+// ------------------------------------------------------------------------------------------------
+// C16 inheritance table (spec/Admission/Inherit.tla): a static neighbour in a peer group.  Every case builds the
+// neighbour's own PeerParams and the PeerGroup, runs the real apply_peer_group + build, and reports where each
+// effective value came from (own values, group values and defaults are chosen pairwise different).
+// Input (.inh.in): "inh <own fields, comma|-> <group fields, comma|->"
+// ------------------------------------------------------------------------------------------------
+#[test]
+fn inherit_replay() {
+    let Ok(inp) = std::env::var("VERIF_IN") else {
+        return;
+    };
+    if !inp.ends_with(".inh.in") {
+        return;
+    }
+    let outp = std::env::var("VERIF_OUT").expect("VERIF_OUT");
+    let text = std::fs::read_to_string(&inp).expect("read VERIF_IN");
+    let mut out = std::io::BufWriter::new(std::fs::File::create(&outp).expect("create VERIF_OUT"));
+    for line in text.lines() {
+        let t: Vec<&str> = line.split_whitespace().collect();
+        if t.len() < 3 || t[0] != "inh" {
+            continue;
+        }
+        let own: Vec<&str> = t[1].split(',').filter(|x| *x != "-").collect();
+        let grp: Vec<&str> = t[2].split(',').filter(|x| *x != "-").collect();
+        let has = |v: &Vec<&str>, f: &str| v.iter().any(|x| *x == f);
+        let addr = IpAddr::V4(Ipv4Addr::new(127, 0, 0, 1));
+        let mut p = base_params(addr);
+        p.holdtime = PeerParams::DEFAULT_HOLD_TIME;
+        if has(&own, "as") {
+            p.expected_remote_asn = 65010;
+        }
+        if has(&own, "hold") {
+            p.holdtime = 30;
+        }
+        if has(&own, "fam") {
+            p.families.insert(Family::IPV4, 3);
+            p.families.insert(Family::IPV6, 0);
+            p.send_max.insert(Family::IPV4, 4);
+        }
+        if has(&own, "gr") {
+            p.graceful_restart = Some(GrPeerConfig { restart_time: 120, notification_enabled: true, families: vec![Family::IPV4] });
+        }
+        if has(&own, "llgr") {
+            p.llgr = Some(LlgrPeerConfig { families: vec![(Family::IPV4, 7200)] });
+        }
+        p.rs_client = has(&own, "rs");
+        if has(&own, "rr") {
+            p.route_reflector = RouteReflectorConfig { route_reflector_client: true, ..Default::default() };
+        }
+        let mut gfam: FnvHashMap<Family, u8> = FnvHashMap::default();
+        let mut gsend: FnvHashMap<Family, usize> = FnvHashMap::default();
+        if has(&grp, "fam") {
+            gfam.insert(Family::IPV4, 3);
+            gsend.insert(Family::IPV4, 2);
+        }
+        let pg = PeerGroup {
+            as_number: if has(&grp, "as") { 65020 } else { 0 },
+            dynamic_peers: Vec::new(),
+            route_server_client: has(&grp, "rs"),
+            holdtime: if has(&grp, "hold") { Some(60) } else { None },
+            local_asn: 0,
+            passive: false,
+            route_reflector: if has(&grp, "rr") { RouteReflectorConfig { route_reflector_client: true, ..Default::default() } } else { RouteReflectorConfig::default() },
+            multihop_ttl: None,
+            ttl_security: None,
+            auth_password: None,
+            connect_retry_time: None,
+            families: gfam,
+            send_max: gsend,
+            graceful_restart: if has(&grp, "gr") { Some(GrPeerConfig { restart_time: 90, notification_enabled: false, families: vec![Family::IPV4] }) } else { None },
+            llgr: if has(&grp, "llgr") { Some(LlgrPeerConfig { families: vec![(Family::IPV4, 3600)] }) } else { None },
+        };
+        p.apply_peer_group(&pg);
+        let peer = p.build(u32::from(Ipv4Addr::new(1, 0, 0, 1)), 65001);
+        let cfg = &peer.config;
+        let from3 = |own_v: bool, grp_v: bool| if own_v { "own" } else if grp_v { "grp" } else { "default" };
+        let as_from = match cfg.expected_remote_asn {
+            65010 => "own",
+            65020 => "grp",
+            0 => "default",
+            _ => "?",
+        };
+        let hold_from = match cfg.holdtime {
+            30 => "own",
+            60 => "grp",
+            x if x == PeerParams::DEFAULT_HOLD_TIME => "default",
+            _ => "?",
+        };
+        // what the OPEN will carry
+        let caps = &cfg.local_cap;
+        let mp: Vec<Family> = caps.iter().filter_map(|c| if let packet::Capability::MultiProtocol(f) = c { Some(*f) } else { None }).collect();
+        let fam_from = if mp.contains(&Family::IPV6) {
+            "own"
+        } else if caps.iter().any(|c| matches!(c, packet::Capability::AddPath(_))) {
+            "grp"
+        } else {
+            "default"
+        };
+        let sendmax_ok = match fam_from {
+            "own" => peer.context.lock().unwrap().conn_arbiter.lock().is_ok(),
+            _ => true,
+        };
+        let gr_cap = caps.iter().find_map(|c| if let packet::Capability::GracefulRestart { restart_time, .. } = c { Some(*restart_time) } else { None });
+        let llgr_cap = caps.iter().find_map(|c| if let packet::Capability::LongLivedGracefulRestart(v) = c { v.first().map(|x| x.2) } else { None });
+        let gr_from = match gr_cap {
+            Some(120) => "own",
+            Some(90) => "grp",
+            None => "default",
+            _ => "?",
+        };
+        let llgr_from = match llgr_cap {
+            Some(7200) => "own",
+            Some(3600) => "grp",
+            None => "default",
+            _ => "?",
+        };
+        let _ = (from3, sendmax_ok);
+        writeln!(
+            out,
+            "{{\"as\":\"{}\",\"hold\":\"{}\",\"fam\":\"{}\",\"gr\":\"{}\",\"llgr\":\"{}\",\"rs\":{},\"rr\":{},\"capGr\":{},\"capLlgr\":{}}}",
+            as_from,
+            hold_from,
+            fam_from,
+            gr_from,
+            llgr_from,
+            cfg.route_server_client,
+            cfg.route_reflector.route_reflector_client,
+            gr_cap.is_some(),
+            llgr_cap.is_some()
+        )
+        .unwrap();
     }
 }
